@@ -14,6 +14,7 @@ every apply/apply_transposed overload of every LAFEM matrix container):
   clause 7  E4.parity / E4.matvec / E4.blocks / E4.view-perspective   (meta matrices)
             E4.view-nonempty     positivity precondition of the range-view constructor at its call sites (empty sub-blocks)
   clause 4  E2.kernel-*          light index-kind rules on the *_generic kernels
+  banded    E2.banded-interval   band helpers and all consumers (generic + FEAT_UNROLL_BANDED unrolled path) agree on one half-open row-interval convention
   aliasing  E5.alias-safe        r may alias y: no read of y after a write to r unless r != y was tested (CFG, param-atom path sensitive)
 
 Keys are source-level (class template, variant, method, operand kinds): instantiations of the same
@@ -1862,6 +1863,245 @@ def rule_e2(ck, agg, facts, alias_viol=()):
 
 
 # --------------------------------------------------------------------------------------------------
+# E2.banded-interval: the band helpers start_offset/end_offset and all their consumers (generic and
+# template-unrolled path) agree on one half-open row-interval convention
+# --------------------------------------------------------------------------------------------------
+
+def lin(fi, n, depth=0):
+    """integer-linear normal form {symbol: coeff, 1: const} over parameter names, or None"""
+    if n is None or depth > 12:
+        return None
+    n = fi.resolve(n)
+    k = n.get("k")
+    if k == "Int":
+        try:
+            return {1: int(str(n.get("v")))}
+        except ValueError:
+            return None
+    if k == "Cast" and n.get("ck") in ("functional", "static", "cstyle"):
+        return lin(fi, n.get("e"), depth + 1)
+    if k in ("Construct", "TempObj") and len(n.get("a", [])) == 1:
+        return lin(fi, n["a"][0], depth + 1)
+    if k == "Un" and n.get("op") in ("-", "+"):
+        e = lin(fi, n.get("e"), depth + 1)
+        if e is None:
+            return None
+        return e if n["op"] == "+" else {s: -c for s, c in e.items()}
+    if k == "Ref":
+        if n.get("v") is not None and n.get("dk") != "param":
+            try:
+                return {1: int(str(n.get("v")))}
+            except ValueError:
+                return None
+        if n.get("dk") == "param":
+            return {n.get("n"): 1}
+        if n.get("dk") == "local":
+            return {"$%s#%s" % (n.get("n"), n.get("d")): 1}      # a variable local (loop counter): opaque symbol
+        return None
+    if k == "Bin" and n.get("op") in ("+", "-"):
+        a, b = lin(fi, n["lhs"], depth + 1), lin(fi, n["rhs"], depth + 1)
+        if a is None or b is None:
+            return None
+        out = dict(a)
+        sg = 1 if n["op"] == "+" else -1
+        for s, c in b.items():
+            out[s] = out.get(s, 0) + sg * c
+        return {s: c for s, c in out.items() if c != 0 or s == 1}
+    if k == "Bin" and n.get("op") == "*":
+        a, b = lin(fi, n["lhs"], depth + 1), lin(fi, n["rhs"], depth + 1)
+        if a is None or b is None:
+            return None
+        if set(a) <= {1}:
+            return {s: c * a.get(1, 0) for s, c in b.items()}
+        if set(b) <= {1}:
+            return {s: c * b.get(1, 0) for s, c in a.items()}
+    return None
+
+
+def lin_norm(d):
+    return None if d is None else tuple(sorted((str(s), c) for s, c in d.items() if c != 0))
+
+
+def lin_str(d):
+    if d is None:
+        return "?"
+    t = [("%s" % str(s).split("#")[0].lstrip("$") if c == 1 else "%d*%s" % (c, str(s).split("#")[0].lstrip("$"))) for s, c in d.items() if s != 1 and c != 0]
+    if d.get(1, 0) != 0 or not t:
+        t.append(str(d.get(1, 0)))
+    return " + ".join(t)
+
+
+BAND_HELPERS = ("start_offset", "end_offset")
+
+
+def helper_sentinels(h):
+    """band helper H(i, offsets, rows, columns, noo): value returned for the sentinel bands i == Index(-1) ("before the
+    first band") and i == noo ("behind the last band") as linear forms over the helper's parameter names"""
+    fi = FnInfo(h)
+    out = {}
+    for n in h.nodes():
+        if n.get("k") != "If":
+            continue
+        c = fi.resolve(n["c"])
+        if c.get("k") != "Bin" or c.get("op") != "==":
+            continue
+        l, r = lin(fi, c["lhs"]), lin(fi, c["rhs"])
+        if l is None or r is None:
+            continue
+        if lin_norm(r) == lin_norm({h.params[0]["n"]: 1}):
+            l, r = r, l
+        if lin_norm(l) != lin_norm({h.params[0]["n"]: 1}):
+            continue
+        which = "-1" if lin_norm(r) == lin_norm({1: -1}) else "noo" if lin_norm(r) == lin_norm({"noo": 1}) else None
+        rets = [x for x in walk(n.get("then")) if x.get("k") == "Return"]
+        if which and len(rets) == 1:
+            out[which] = lin(fi, rets[0].get("e"))
+    return out
+
+
+def rule_banded(ck, agg, tier):
+    R = "E2.banded-interval"
+    archfiles = featlib.repo_path(LAFEM + "arch/")
+    fsets = []
+    for extra, label in (((), "default build"), (("-DFEAT_UNROLL_BANDED",), "-DFEAT_UNROLL_BANDED")):
+        fx = featlib.extract("tu/c01_banded.cpp", files=archfiles, names=r"ApplyBanded|banded", extra=extra)
+        ck.tu(fx)
+        for e in fx.diags:
+            ck.incomplete(R, "front-end error parsing the banded kernels (%s): %s:%d %s" % (label, rel(e["file"]), e["line"], e["msg"]))
+        fsets.append((label, fx))
+    helpers = {}
+    for label, fx in fsets:
+        for f in fx.functions:
+            if f.name in BAND_HELPERS and "ApplyBanded" in f.qn and f.tk != "pattern":
+                helpers.setdefault(f.name, []).append(f)
+    for hn in BAND_HELPERS:
+        if hn not in helpers:
+            ck.incomplete(R, "band helper Intern::ApplyBanded::%s not found" % hn)
+            return
+    sent = {}
+    for hn, hs in helpers.items():
+        vals = {lin_norm_pair(helper_sentinels(h)) for h in hs}
+        s0 = helper_sentinels(hs[0])
+        if len(vals) != 1 or set(s0) != {"-1", "noo"} or any(v is None for v in s0.values()):
+            ck.incomplete(R, "sentinel branches (i == Index(-1), i == noo) of %s not recognised" % hn)
+            return
+        sent[hn] = s0
+    # consumers
+    sigs = {}
+    families = {}
+    for label, fx in fsets:
+        for f in fx.functions:
+            if f.tk == "pattern" or "ApplyBanded" not in f.qn or f.name in BAND_HELPERS:
+                continue
+            hcalls = [c for c in f.calls() if c.get("k") == "Call" and c.get("callee", "").rsplit("::", 1)[-1] in BAND_HELPERS and "ApplyBanded" in c.get("callee", "")]
+            if not hcalls:
+                continue
+            fam = re.sub(r"<.*?>(?=::|$)", "", f.qn.split("ApplyBanded::", 1)[-1])
+            fam = re.sub(r"<.*>", "", fam)
+            fi = FnInfo(f)
+            dfile = display_file(f)
+            used = set()
+
+            def term(n):
+                """H(args) + c -> (helper name, call, c) or None"""
+                n = fi.resolve(n)
+                if n.get("k") == "Cast":
+                    return term(n.get("e"))
+                if n.get("k") == "Call" and n in hcalls:
+                    return (n["callee"].rsplit("::", 1)[-1], n, 0)
+                if n.get("k") == "Bin" and n.get("op") in ("+", "-"):
+                    for a, b, sg in ((n["lhs"], n["rhs"], 1), (n["rhs"], n["lhs"], 1 if n["op"] == "+" else None)):
+                        t, c = term(a), lin(fi, b)
+                        if t is not None and c is not None and set(c) <= {1} and sg is not None:
+                            return (t[0], t[1], t[2] + (c.get(1, 0) if n["op"] == "+" else -c.get(1, 0)))
+                return None
+
+            def bound(n, fn_name):
+                n = fi.resolve(n)
+                if n.get("k") == "Call" and n.get("callee", "").endswith("Math::" + fn_name) and len(n.get("a", [])) == 2:
+                    ts = [term(a) for a in n["a"]]
+                    if all(t is not None for t in ts) and {t[0] for t in ts} == set(BAND_HELPERS):
+                        return {t[0]: t for t in ts}
+                return None
+            loops = []
+            for n in f.nodes():
+                if n.get("k") != "For":
+                    continue
+                lb = n.get("init"), n.get("c")
+                init, c = lb
+                if not init or init.get("k") != "Decl" or len(init.get("vars", [])) != 1 or not c or c.get("k") != "Bin" or c.get("op") not in ("<", "<="):
+                    continue
+                v = init["vars"][0]
+                if not (c["lhs"].get("k") == "Ref" and c["lhs"].get("d") == v["d"]):
+                    continue
+                lo, hi = bound(v.get("init"), "max"), bound(c["rhs"], "min")
+                if lo is None and hi is None:
+                    continue
+                if lo is None or hi is None:
+                    ck.incomplete(R, "%s: row loop at line %s has only one bound built from the band helpers" % (fam, n.get("l")))
+                    continue
+                loops.append((n, lo, hi, 1 if c["op"] == "<=" else 0))
+                for b in (lo, hi):
+                    for t in b.values():
+                        used.add(id(t[1]))
+            stray = [c for c in hcalls if id(c) not in used]
+            if stray or not loops:
+                ck.incomplete(R, "%s (%s): %d call(s) of the band helpers outside a recognised row range [max(..), min(..)) (line %s)" % (
+                    fam, f.loc, len(stray), stray[0].get("l") if stray else f.line))
+                continue
+            families.setdefault(fam, 0)
+            families[fam] += 1
+            for loop, lo, hi, incl in loops:
+                sig = []
+                for hn in BAND_HELPERS:
+                    tl, th = lo[hn], hi[hn]
+                    bad = []
+                    # the helper receives the consumer's own offsets/rows/columns/band count
+                    for t in (tl, th):
+                        pn, a = t[1].get("pn", []), t[1].get("a", [])
+                        for i, nm in enumerate(pn):
+                            if nm in ("rows", "columns") and i < len(a) and lin_norm(lin(fi, a[i])) != lin_norm({nm: 1}):
+                                bad.append("%s receives '%s' as %s" % (hn, render(a[i]), nm))
+                    al, ah = lin(fi, tl[1]["a"][0]) if tl[1].get("a") else None, lin(fi, th[1]["a"][0]) if th[1].get("a") else None
+                    if al is None or ah is None:
+                        ck.incomplete(R, "%s: band argument of %s not linear (line %s)" % (fam, hn, loop.get("l")))
+                        continue
+                    delta = dict(ah)
+                    for s, c in al.items():
+                        delta[s] = delta.get(s, 0) - c
+                    dn = lin_norm(delta)
+                    if dn != lin_norm({1: -1}):
+                        bad.append("the upper bound uses band %s and the lower bound band %s of %s: expected the preceding band (difference -1)" % (lin_str(ah), lin_str(al), hn))
+                    for what, t, extra_c in (("lower", tl, 0), ("upper", th, incl)):
+                        c = t[2] + extra_c
+                        for which, want in (("noo", {1: 0}), ("-1", {"rows": 1})):
+                            v = dict(sent[hn][which])
+                            v[1] = v.get(1, 0) + c
+                            if lin_norm(v) != lin_norm(want):
+                                bad.append("%s bound term %s(.)%s%s evaluates to '%s' for the sentinel band %s; a half-open row range [lo,hi) needs %s" % (
+                                    what, hn, (" + %d" % t[2]) if t[2] > 0 else (" - %d" % -t[2]) if t[2] < 0 else "", " (loop uses <=)" if extra_c else "",
+                                    lin_str(v), "Index(-1)" if which == "-1" else "noo", lin_str(want)))
+                    sig.append((hn, tl[2], th[2] + incl, dn))
+                    agg.add(R, "ApplyBanded::%s/%s" % (fam, hn), not bad, "; ".join(sorted(set(bad))[:3]) if bad else
+                            "rows [max(..%s(p)%+d..), min(..%s(p-1)%+d..)): sentinels give 0 and rows" % (hn, tl[2], hn, th[2] + incl), dfile, loop.get("l"), inst="%s [%s]" % (f.full.split("ApplyBanded::", 1)[-1][:60], label))
+                sigs.setdefault(fam, set()).add(tuple(sig))
+    for need in ("apply_banded_generic", "Iteration_Left::f"):
+        if need not in families:
+            ck.incomplete(R, "consumer Intern::ApplyBanded::%s of the band helpers not instantiated (generic and unrolled path are both required)" % need)
+    allsig = {s for v in sigs.values() for s in v}
+    if sigs:
+        detail = "; ".join("%s: %s" % (fam, " | ".join("%s lo%+d hi%+d band-step %s" % (h, cl, ch, "-1" if d == lin_norm({1: -1}) else ("0" if not d else str(d))) for sg in sorted(v) for (h, cl, ch, d) in sg)) for fam, v in sorted(sigs.items()))
+        f0 = helpers["end_offset"][0]
+        agg.add(R, "ApplyBanded/consumers-agree", len(allsig) == 1,
+                ("the consumers of start_offset/end_offset disagree on the interval convention (one of them is wrong whichever convention the helpers implement): " + detail)
+                if len(allsig) != 1 else "generic and unrolled path build the same row range from the helpers (" + detail + ")", display_file(f0), f0.line)
+
+
+def lin_norm_pair(d):
+    return tuple(sorted((k, lin_norm(v)) for k, v in d.items()))
+
+
+# --------------------------------------------------------------------------------------------------
 
 def run(tier):
     ck = Check("C01", tier)
@@ -1903,6 +2143,11 @@ def run(tier):
             "kernel/wrapper every read of y precedes every write to r that can hit it, or is the element-wise pairing r[i] <- y[i] on the loop's induction variable, or lies "
             "on a path where r != y was tested true (copy idiom), or is a value only multiplied by b on a |b| < eps path; a fill/copy of all of r (or a full-range loop writing r) "
             "followed by a read of y is a violation (input class: 4-operand forms with r aliasing y)", 17)
+    ck.rule("E2.banded-interval", "the band helpers Intern::ApplyBanded::start_offset/end_offset and ALL their consumers — the generic kernel and the template-unrolled "
+            "Iteration_Left kernels of the documented build option FEAT_UNROLL_BANDED (3/5/9/25 offsets) — agree on one half-open row-interval convention: every bound term "
+            "H(band)+c of a row loop [max(..), min(..)) evaluates to 0 for the sentinel band noo and to rows for the sentinel band Index(-1), the upper bound uses the preceding "
+            "band, and all consumers have the same normal form (admissible input: any banded matrix in a build with FEAT_UNROLL_BANDED resp. without; a drifted helper contract "
+            "shifts every row range by one)", 5)
     ck.rule("E2.kernel-returns", "every *_generic kernel has a normal exit (an operation the container offers must not abort unconditionally)", 9)
     ck.rule("E2.kernel-kinds", "in the CSR/CSCR/BCSR/CSRSB/dense generic kernels r is subscripted by Row-kind and x by Col-kind indices (swapped when transposing), "
             "val/col_ind by the row_ptr segment of a Row index (breaks for rectangular shapes, empty rows)", 7)
@@ -1957,6 +2202,7 @@ def run(tier):
     rule_c6_kernels(ck, agg, facts)
     alias_viol = rule_alias(ck, agg, facts)
     rule_e2(ck, agg, facts, alias_viol)
+    rule_banded(ck, agg, tier)
     agg.flush()
 
     ck.assume("template arguments analysed: double/Index (quick) plus float, unsigned int and further block shapes (thorough); BCSR blocks 2x3, 3x3, 2x2, 2x1, 1x2; "
@@ -1970,5 +2216,5 @@ def run(tier):
             "zero-product condition, alpha=0 never reaches a kernel dividing by alpha (E7); (6) inputs are const everywhere incl. range views (C6); (7) block structure, "
             "method parity, defining/accumulating forms and range-view extents of all meta matrices (E4); (4, partly) index kinds and initialisation extents of the CSR-family and "
             "dense generic kernels (E2). Not decided: numerical equality with the dense product / rounding bound, sign and constant-factor errors inside a kernel that keep index "
-            "kinds, the offset arithmetic of the banded kernel, MKL/CUDA back ends, r==x aliasing (guarded by XASSERT at run time); r==y aliasing is decided for the kernels/wrappers (E5.alias-safe), element-write/read overlaps the rule cannot order are reported as analysis-incomplete.")
+            "kinds, the remaining offset arithmetic of the banded kernel (the row-interval convention of its helpers and both consumer paths is decided by E2.banded-interval), MKL/CUDA back ends, r==x aliasing (guarded by XASSERT at run time); r==y aliasing is decided for the kernels/wrappers (E5.alias-safe), element-write/read overlaps the rule cannot order are reported as analysis-incomplete.")
     return ck.finish(expl)
